@@ -59,18 +59,375 @@ theorem recordVote_eq_phases (c : Coordinator) (tx sh : Nat) (v : Vote) (f : Nat
     simp only
     split
     · rfl
-    · split
+    · rename_i hph
+      have hph' : t.phase = .preparing := by simpa using hph
+      split
       · rfl
       · split
         · split
-          · -- all voted YES: phases 2 + 3 on the snapshot
+          · -- all voted YES: phases 2 + 3 on the snapshot; the entry is still `Preparing`
             simp only [Coordinator.recordVoteP3]
+            rw [findTx_setTx (t1 := { t with votes := t.votes ++ [(sh, v)] }) hf hid]
+            simp only [hph', beq_self_eq_true, bne_self_eq_false, if_true, Bool.false_eq_true, if_false]
             split
-            · rw [setPhase_setTx c.pending tx { t with votes := t.votes ++ [(sh, v)] } _ hid]
-            · rw [findTx_setTx (t1 := { t with votes := t.votes ++ [(sh, v)] }) hf hid]
-              simp only
-              rw [setPhase_setTx c.pending tx { t with votes := t.votes ++ [(sh, v)] } _ hid]
+            · rw [setPhase_setTx c.pending tx { t with votes := t.votes ++ [(sh, v)], phase := .preparing } _ hid]
+            · rw [setPhase_setTx c.pending tx { t with votes := t.votes ++ [(sh, v)], phase := .preparing } _ hid]
           · rfl
         · rfl
+
+/-! ### the coordinator shared by several threads: one decision under every interleaving -/
+
+theorem mem_setPhase {ps : List DTx} {tx : Nat} {ph : Phase} {t : DTx} (h : t ∈ setPhase ps tx ph) :
+    (∃ u ∈ ps, u.id = tx ∧ t = { u with phase := ph }) ∨ (t ∈ ps ∧ t.id ≠ tx) := by
+  simp only [setPhase, List.mem_map] at h
+  obtain ⟨u, hu, rfl⟩ := h
+  split
+  · rename_i hid; exact Or.inl ⟨u, hu, hid, rfl⟩
+  · rename_i hid; exact Or.inr ⟨hu, hid⟩
+
+/-- what phase 1 does when it changes anything -/
+theorem recordVoteP1_ok {c : Coordinator} {tx sh : Nat} {v : Vote} {r : P1Result}
+    (h : c.recordVoteP1 tx sh v = .ok r) :
+    ∃ t t1 c', (r = .done c' none ∨ r = .done c' (some .aborting) ∨ r = .check c' t1) ∧
+      t ∈ c.pending ∧ t.id = tx ∧ t.phase = .preparing ∧ t1.id = tx ∧
+      c'.pending = setTx c.pending tx t1 ∧ c'.nextTx = c.nextTx ∧
+      ((t1.phase = .preparing ∧ c'.pendingAborts = c.pendingAborts) ∨
+       (t1.phase = .aborting ∧ ∃ reason ps, c'.pendingAborts = c.pendingAborts ++ [(tx, reason, ps)])) := by
+  unfold Coordinator.recordVoteP1 at h
+  split at h
+  · cases h
+  · rename_i t ht
+    obtain ⟨hmem, hid⟩ := findTx_some ht
+    split at h
+    · cases h
+    · rename_i hph
+      have hph' : t.phase = .preparing := by simpa using hph
+      split at h
+      · cases h
+      · dsimp only at h
+        split at h
+        · split at h
+          · cases h
+            exact ⟨t, _, _, Or.inr (Or.inr rfl), hmem, hid, hph', hid, rfl, rfl, Or.inl ⟨hph', rfl⟩⟩
+          · cases h
+            exact ⟨t, { t with votes := t.votes ++ [(sh, v)], phase := .aborting }, _, Or.inr (Or.inl rfl),
+              hmem, hid, hph', hid, rfl, rfl, Or.inr ⟨rfl, _, _, rfl⟩⟩
+        · cases h
+          exact ⟨t, { t with votes := t.votes ++ [(sh, v)] }, _, Or.inl rfl, hmem, hid, hph', hid, rfl, rfl,
+            Or.inl ⟨hph', rfl⟩⟩
+
+/-- what phase 3 of the code does: nothing, or it moves a transaction that is `Preparing` NOW to
+    `Prepared` (nothing queued) or to `Aborting` (one abort broadcast queued) -/
+theorem recordVoteP3_cases (c : Coordinator) (tx : Nat) (snap : DTx) (f : Nat → Nat → Bool) :
+    c.recordVoteP3 tx snap f = (c, none) ∨
+    ∃ t, findTx c.pending tx = some t ∧ t.phase = .preparing ∧
+      ((c.recordVoteP3 tx snap f) =
+          ({ c with pending := setPhase c.pending tx .prepared }, some .prepared) ∨
+       (c.recordVoteP3 tx snap f) =
+          ({ c with pending := setPhase c.pending tx .aborting,
+                    pendingAborts := c.pendingAborts ++ [(tx, .crossShard, snap.participants)] }, some .aborting)) := by
+  unfold Coordinator.recordVoteP3
+  split
+  · split
+    · rename_i t ht
+      split
+      · rename_i hph
+        exact Or.inr ⟨t, ht, by simpa using hph, Or.inr rfl⟩
+      · exact Or.inl rfl
+    · exact Or.inl rfl
+  · split
+    · rename_i t ht
+      split
+      · exact Or.inl rfl
+      · rename_i hph
+        exact Or.inr ⟨t, ht, by simpa using hph, Or.inl rfl⟩
+    · exact Or.inl rfl
+
+structure CInv (s : CSys) : Prop where
+  lt : ∀ t ∈ s.c.pending, t.id < s.c.nextTx
+  uniq : ∀ t ∈ s.c.pending, ∀ t' ∈ s.c.pending, t.id = t'.id → t = t'
+  com : ∀ tx ∈ s.commits, tx < s.c.nextTx ∧ ∀ t ∈ s.c.pending, t.id ≠ tx
+  ab : ∀ tx, s.abortDecided tx → tx < s.c.nextTx ∧ ∀ t ∈ s.c.pending, t.id = tx → t.phase = .aborting
+  excl : ∀ tx ∈ s.commits, ¬ s.abortDecided tx
+
+theorem CInv.init (mc tt : Nat) : CInv (CSys.init mc tt) := by
+  constructor <;> simp [CSys.init, CSys.abortDecided]
+
+/-- a step that only rewrites the entry of one `Preparing` transaction `tx` (new entry / entries `t'`
+    with `t'.id = tx`), possibly queueing an abort broadcast for `tx` together with phase `Aborting` -/
+theorem CInv.rewrite {s : CSys} (h : CInv s) {c' : Coordinator} {tx : Nat} {t : DTx}
+    (ht : t ∈ s.c.pending) (hid : t.id = tx) (hph : t.phase = .preparing)
+    (hnext : c'.nextTx = s.c.nextTx)
+    (hpend : ∀ t' ∈ c'.pending, (t'.id = tx ∧ ∃ u ∈ s.c.pending, u.id = tx) ∨ (t' ∈ s.c.pending ∧ t'.id ≠ tx))
+    (huniq : ∀ a ∈ c'.pending, ∀ b ∈ c'.pending, a.id = b.id → a = b)
+    (hab : c'.pendingAborts = s.c.pendingAborts ∨
+      ((∀ t' ∈ c'.pending, t'.id = tx → t'.phase = .aborting) ∧
+        ∃ r ps, c'.pendingAborts = s.c.pendingAborts ++ [(tx, r, ps)])) :
+    CInv { s with c := c' } := by
+  have hnot : ¬ s.abortDecided tx := by
+    intro hd
+    have := (h.ab tx hd).2 t ht hid
+    rw [hph] at this; cases this
+  have hdec : ∀ tx', CSys.abortDecided { s with c := c' } tx' → s.abortDecided tx' ∨
+      (tx' = tx ∧ ∀ t' ∈ c'.pending, t'.id = tx → t'.phase = .aborting) := by
+    intro tx' hd
+    rcases hab with hab | ⟨hph', r, ps, hab⟩
+    · left
+      simp only [CSys.abortDecided] at hd ⊢
+      rw [hab] at hd; exact hd
+    · simp only [CSys.abortDecided, hab, List.map_append, List.mem_append, List.map_cons, List.map_nil,
+        List.mem_singleton] at hd
+      rcases hd with hd | hd | hd
+      · exact Or.inl (Or.inl hd)
+      · exact Or.inl (Or.inr hd)
+      · exact Or.inr ⟨hd, hph'⟩
+  constructor
+  · intro t' ht'
+    show t'.id < c'.nextTx
+    rw [hnext]
+    rcases hpend t' ht' with ⟨h1, _⟩ | ⟨h1, _⟩
+    · rw [h1, ← hid]; exact h.lt t ht
+    · exact h.lt t' h1
+  · exact huniq
+  · intro tx' hc
+    obtain ⟨h1, h2⟩ := h.com tx' hc
+    refine ⟨by show tx' < c'.nextTx; rw [hnext]; exact h1, ?_⟩
+    intro t' ht'
+    rcases hpend t' ht' with ⟨h3, _⟩ | ⟨h3, _⟩
+    · rw [h3, ← hid]; exact h2 t ht
+    · exact h2 t' h3
+  · intro tx' hd
+    rcases hdec tx' hd with hd' | ⟨rfl, hph'⟩
+    · obtain ⟨h1, h2⟩ := h.ab tx' hd'
+      refine ⟨by show tx' < c'.nextTx; rw [hnext]; exact h1, ?_⟩
+      intro t' ht' hid'
+      rcases hpend t' ht' with ⟨h3, _⟩ | ⟨h3, _⟩
+      · exact absurd hd' (by rw [← hid', h3]; exact hnot)
+      · exact h2 t' h3 hid'
+    · refine ⟨by show tx' < c'.nextTx; rw [hnext, ← hid]; exact h.lt t ht, hph'⟩
+  · intro tx' hc hd
+    rcases hdec tx' hd with hd' | ⟨rfl, _⟩
+    · exact h.excl tx' hc hd'
+    · exact (h.com tx' hc).2 t ht hid
+
+theorem CInv.step {s : CSys} (h : CInv s) (e : CEv) : CInv (s.step e) := by
+  cases e with
+  | begin now ps =>
+    simp only [CSys.step, CSys.stepWith]
+    cases hb : s.c.begin now ps with
+    | error e => exact h
+    | ok r =>
+      simp only
+      unfold Coordinator.begin at hb
+      split at hb
+      · cases hb
+      · cases hb
+        constructor
+        · intro t ht
+          simp only [List.mem_append, List.mem_singleton] at ht
+          rcases ht with ht | rfl
+          · exact Nat.lt_succ_of_lt (h.lt t ht)
+          · exact Nat.lt_succ_self _
+        · intro a ha b hb hab
+          simp only [List.mem_append, List.mem_singleton] at ha hb
+          rcases ha with ha | rfl <;> rcases hb with hb | rfl
+          · exact h.uniq a ha b hb hab
+          · have := h.lt a ha; simp only at hab; omega
+          · have := h.lt b hb; simp only at hab; omega
+          · rfl
+        · intro tx hc
+          obtain ⟨h1, h2⟩ := h.com tx hc
+          refine ⟨Nat.lt_succ_of_lt h1, ?_⟩
+          intro t ht
+          simp only [List.mem_append, List.mem_singleton] at ht
+          rcases ht with ht | rfl
+          · exact h2 t ht
+          · simp only; omega
+        · intro tx hd
+          have hd' : s.abortDecided tx := hd
+          obtain ⟨h1, h2⟩ := h.ab tx hd'
+          refine ⟨Nat.lt_succ_of_lt h1, ?_⟩
+          intro t ht hid
+          simp only [List.mem_append, List.mem_singleton] at ht
+          rcases ht with ht | rfl
+          · exact h2 t ht hid
+          · simp only at hid; omega
+        · intro tx hc hd
+          exact h.excl tx hc hd
+  | voteP1 tx sh v =>
+    simp only [CSys.step, CSys.stepWith]
+    cases hp : s.c.recordVoteP1 tx sh v with
+    | error e => exact h
+    | ok r =>
+      obtain ⟨t, t1, c', hr, ht, hid, hph, hid1, hpend, hnext, hab⟩ := recordVoteP1_ok hp
+      have key : CInv { s with c := c' } := by
+        refine h.rewrite ht hid hph hnext ?_ ?_ ?_
+        · intro t' ht'
+          rw [hpend] at ht'
+          rcases mem_setTx ht' with rfl | h1
+          · exact Or.inl ⟨hid1, t, ht, hid⟩
+          · exact Or.inr h1
+        · intro a ha b hb hab'
+          rw [hpend] at ha hb
+          rcases mem_setTx ha with rfl | h1 <;> rcases mem_setTx hb with rfl | h2
+          · rfl
+          · exact absurd (hab'.symm.trans hid1) h2.2
+          · exact absurd (hab'.trans hid1) h1.2
+          · exact h.uniq a h1.1 b h2.1 hab'
+        · rcases hab with ⟨_, h1⟩ | ⟨h1, r', ps, h2⟩
+          · exact Or.inl h1
+          · refine Or.inr ⟨?_, r', ps, h2⟩
+            intro t' ht' hid'
+            rw [hpend] at ht'
+            rcases mem_setTx ht' with rfl | h3
+            · exact h1
+            · exact absurd hid' h3.2
+      rcases hr with rfl | rfl | rfl <;> exact key
+  | voteP3 tx snap f =>
+    simp only [CSys.step, CSys.stepWith]
+    rcases recordVoteP3_cases s.c tx snap f with he | ⟨t, hf, hph, he | he⟩
+    · rw [he]; exact h
+    all_goals
+      rw [he]
+      obtain ⟨ht, hid⟩ := findTx_some hf
+      refine h.rewrite ht hid hph rfl ?_ ?_ ?_
+    · intro t' ht'
+      rcases mem_setPhase ht' with ⟨u, hu, hu2, rfl⟩ | h1
+      · exact Or.inl ⟨hu2, u, hu, hu2⟩
+      · exact Or.inr h1
+    · intro a ha b hb hab'
+      rcases mem_setPhase ha with ⟨u, hu, hu2, rfl⟩ | h1 <;> rcases mem_setPhase hb with ⟨w, hw, hw2, rfl⟩ | h2
+      · rw [h.uniq u hu w hw hab']
+      · exact absurd (hab'.symm.trans hu2) h2.2
+      · exact absurd (hab'.trans hw2) h1.2
+      · exact h.uniq a h1.1 b h2.1 hab'
+    · exact Or.inl rfl
+    · intro t' ht'
+      rcases mem_setPhase ht' with ⟨u, hu, hu2, rfl⟩ | h1
+      · exact Or.inl ⟨hu2, u, hu, hu2⟩
+      · exact Or.inr h1
+    · intro a ha b hb hab'
+      rcases mem_setPhase ha with ⟨u, hu, hu2, rfl⟩ | h1 <;> rcases mem_setPhase hb with ⟨w, hw, hw2, rfl⟩ | h2
+      · rw [h.uniq u hu w hw hab']
+      · exact absurd (hab'.symm.trans hu2) h2.2
+      · exact absurd (hab'.trans hw2) h1.2
+      · exact h.uniq a h1.1 b h2.1 hab'
+    · refine Or.inr ⟨?_, _, _, rfl⟩
+      intro t' ht' hid'
+      rcases mem_setPhase ht' with ⟨u, hu, hu2, rfl⟩ | h1
+      · rfl
+      · exact absurd hid' h1.2
+  | commit tx =>
+    simp only [CSys.step, CSys.stepWith]
+    cases hc : s.c.commit tx with
+    | error e => exact h
+    | ok c' =>
+      obtain ⟨t, hf, hph, rfl⟩ := commit_ok hc
+      dsimp only
+      obtain ⟨ht, hid⟩ := findTx_some hf
+      have hnot : ¬ s.abortDecided tx := by
+        intro hd
+        have := (h.ab tx hd).2 t ht hid
+        rw [hph] at this; cases this
+      constructor
+      · intro t' ht'; exact h.lt t' (mem_removeTx.1 ht').1
+      · intro a ha b hb; exact h.uniq a (mem_removeTx.1 ha).1 b (mem_removeTx.1 hb).1
+      · intro tx' hc'
+        simp only [List.mem_append, List.mem_singleton] at hc'
+        rcases hc' with hc' | rfl
+        · exact ⟨(h.com tx' hc').1, fun t' ht' => (h.com tx' hc').2 t' (mem_removeTx.1 ht').1⟩
+        · exact ⟨by rw [← hid]; exact h.lt t ht, fun t' ht' => (mem_removeTx.1 ht').2⟩
+      · intro tx' hd
+        have hd' : s.abortDecided tx' := hd
+        exact ⟨(h.ab tx' hd').1, fun t' ht' => (h.ab tx' hd').2 t' (mem_removeTx.1 ht').1⟩
+      · intro tx' hc' hd
+        have hd' : s.abortDecided tx' := hd
+        simp only [List.mem_append, List.mem_singleton] at hc'
+        rcases hc' with hc' | rfl
+        · exact h.excl tx' hc' hd'
+        · exact hnot hd'
+  | abort tx =>
+    simp only [CSys.step, CSys.stepWith]
+    cases hc : s.c.abort tx with
+    | error e => exact h
+    | ok c' =>
+      obtain ⟨t, hf, rfl⟩ := abort_ok hc
+      obtain ⟨ht, hid⟩ := findTx_some hf
+      dsimp only
+      have hdec : ∀ tx', CSys.abortDecided ⟨{ s.c with pending := removeTx s.c.pending tx }, s.commits,
+          s.aborts ++ [tx]⟩ tx' → s.abortDecided tx' ∨ tx' = tx := by
+        intro tx' hd
+        simp only [CSys.abortDecided, List.mem_append, List.mem_singleton] at hd
+        rcases hd with (hd | hd) | hd
+        · exact Or.inl (Or.inl hd)
+        · exact Or.inr hd
+        · exact Or.inl (Or.inr hd)
+      constructor
+      · intro t' ht'; exact h.lt t' (mem_removeTx.1 ht').1
+      · intro a ha b hb; exact h.uniq a (mem_removeTx.1 ha).1 b (mem_removeTx.1 hb).1
+      · intro tx' hc'
+        exact ⟨(h.com tx' hc').1, fun t' ht' => (h.com tx' hc').2 t' (mem_removeTx.1 ht').1⟩
+      · intro tx' hd
+        rcases hdec tx' hd with hd' | rfl
+        · exact ⟨(h.ab tx' hd').1, fun t' ht' => (h.ab tx' hd').2 t' (mem_removeTx.1 ht').1⟩
+        · exact ⟨by rw [← hid]; exact h.lt t ht, fun t' ht' hid' => absurd hid' (mem_removeTx.1 ht').2⟩
+      · intro tx' hc' hd
+        rcases hdec tx' hd with hd' | rfl
+        · exact h.excl tx' hc' hd'
+        · exact (h.com tx' hc').2 t ht hid
+  | sweep now =>
+    simp only [CSys.step, CSys.stepWith, Coordinator.cleanupTimeouts]
+    have hdec : ∀ tx', CSys.abortDecided ⟨{ s.c with
+          pending := s.c.pending.filter (fun t => !t.timedOut now),
+          pendingAborts := s.c.pendingAborts ++
+            (s.c.pending.filter (fun t => t.timedOut now)).map (fun t => (t.id, AbortReason.timeout, t.participants)) },
+          s.commits, s.aborts⟩ tx' →
+        s.abortDecided tx' ∨ ∃ t ∈ s.c.pending, t.id = tx' ∧ t.timedOut now = true := by
+      intro tx' hd
+      simp only [CSys.abortDecided, List.map_append, List.mem_append, List.map_map, List.mem_map,
+        List.mem_filter, Function.comp] at hd
+      rcases hd with hd | hd | ⟨t, ⟨ht, hto⟩, hid⟩
+      · exact Or.inl (Or.inl hd)
+      · exact Or.inl (Or.inr (List.mem_map.2 hd))
+      · exact Or.inr ⟨t, ht, hid, hto⟩
+    constructor
+    · intro t' ht'; exact h.lt t' (List.mem_filter.1 ht').1
+    · intro a ha b hb; exact h.uniq a (List.mem_filter.1 ha).1 b (List.mem_filter.1 hb).1
+    · intro tx' hc'
+      exact ⟨(h.com tx' hc').1, fun t' ht' => (h.com tx' hc').2 t' (List.mem_filter.1 ht').1⟩
+    · intro tx' hd
+      rcases hdec tx' hd with hd' | ⟨t, ht, hid, hto⟩
+      · exact ⟨(h.ab tx' hd').1, fun t' ht' => (h.ab tx' hd').2 t' (List.mem_filter.1 ht').1⟩
+      · refine ⟨by rw [← hid]; exact h.lt t ht, ?_⟩
+        intro t' ht' hid'
+        obtain ⟨h1, h2⟩ := List.mem_filter.1 ht'
+        have : t' = t := h.uniq t' h1 t ht (hid'.trans hid.symm)
+        subst this
+        rw [hto] at h2; cases h2
+    · intro tx' hc' hd
+      rcases hdec tx' hd with hd' | ⟨t, ht, hid, _⟩
+      · exact h.excl tx' hc' hd'
+      · exact (h.com tx' hc').2 t ht hid
+  | drain =>
+    simp only [CSys.step, CSys.stepWith, Coordinator.takePendingAborts]
+    have hdec : ∀ tx', CSys.abortDecided ⟨{ s.c with pendingAborts := [] }, s.commits,
+        s.aborts ++ s.c.pendingAborts.map (·.1)⟩ tx' → s.abortDecided tx' := by
+      intro tx' hd
+      simp only [CSys.abortDecided, List.mem_append, List.map_nil, List.not_mem_nil, or_false] at hd
+      exact hd
+    exact ⟨h.lt, h.uniq, h.com, fun tx' hd => h.ab tx' (hdec tx' hd), fun tx' hc hd => h.excl tx' hc (hdec tx' hd)⟩
+
+theorem CInv.reach {s0 s : CSys} (h0 : CInv s0) (hr : CReach s0 s) : CInv s := by
+  induction hr with
+  | refl => exact h0
+  | step e _ ih => exact ih.step e
+
+def CSys.run (s : CSys) (es : List CEv) : CSys := es.foldl CSys.step s
+def CSys.runOld (s : CSys) (es : List CEv) : CSys := es.foldl CSys.stepOld s
+
+theorem creach_run {s0 s : CSys} (hr : CReach s0 s) (es : List CEv) : CReach s0 (s.run es) := by
+  induction es generalizing s with
+  | nil => exact hr
+  | cons e es ih => exact ih (CReach.step e hr)
 
 end Neumann.TwoPC
